@@ -27,7 +27,7 @@ theorem extract_mode_eq (usc : Bool) (ncf : Nat) :
   cases usc <;> by_cases h : 0 < ncf <;> simp [h]
 
 /-- every slot is filled, by the call with ITS OWN method and errors value, extracted with `no_control_levels=False` -/
-theorem entryOf_eq (s : Slot) :
+theorem src_populate_entries (s : Slot) :
     entryOf s = some ⟨s, (match s with
       | .groupMin e => .grouping .min e | .groupMax e => .grouping .max e
       | .difference m e => .difference m e | .ratio m e => .ratio m e), false⟩ := by
@@ -40,7 +40,7 @@ theorem entryOf_eq (s : Slot) :
 theorem cached_eq (usc : Bool) (s : Slot) (t : Tables) :
     cached usc s t = .got (documentedMode usc t.ncf) (direct s t) := by
   unfold cached
-  rw [entryOf_eq]
+  rw [src_populate_entries]
   simp only [extract_mode_eq, documentedMode_not_fails]
   cases s <;> rfl
 
